@@ -158,6 +158,10 @@ def parse_template(path):
                     flush()
                     parts.append(("stub", rest, i + 1))
                     buf_line = i + 2
+                elif word == "assumed":
+                    flush()
+                    parts.append(("assumed", rest, i + 1))
+                    buf_line = i + 2
                 elif word in ("fn", "item", "region", "expr"):
                     flush()
                     cur = Block(word, rest, i + 1)
@@ -910,6 +914,86 @@ def contract_stub(args, overlay, meta, lineno):
     return Chunk("".join(out), {"t": "template", "line": lineno, "stub_of": "%s::%s" % (unit, path)})
 
 
+def assumed_wrapper(args, meta, lineno):
+    """`//@assumed PRELUDE_FILE Type::fn [calls=NAME] [as=WRAPPER]`: take the contract that a HAND-WRITTEN external_body stub in
+    prelude/PRELUDE_FILE assumes for Type::fn and emit a wrapper `fn <fn>__as_assumed(params) requires A ensures B { recv.<calls>(args) }`.
+    Together with `//@stub UNIT Type::fn as=<calls>` (the contract PROVED in UNIT) the verifier then checks that the assumed contract
+    follows from the proved one: the stub is no longer trusted, it is implied."""
+    opts, words = parse_opts(args)
+    if len(words) < 2:
+        raise GenError("template line %d: //@assumed PRELUDE_FILE Type::fn" % lineno)
+    pfile, path = words[0], words[1]
+    try:
+        text = open(os.path.join(VERIF, "prelude", pfile)).read()
+    except OSError as e:
+        raise GenError("assumed: %s" % e)
+    ty, name = path.rsplit("::", 1) if "::" in path else (None, path)
+    # locate `impl Ty {` ... and inside it `fn name(`
+    start = 0
+    if ty:
+        mi = re.search(r"^impl(?:<[^>]*>)?\s+%s\b[^{\n]*\{" % re.escape(ty), text, re.M)
+        cands = []
+        for mi in re.finditer(r"^impl(?:<[^>]*>)?\s+%s\b[^{\n]*\{" % re.escape(ty), text, re.M):
+            cands.append(mi.end())
+        if not cands:
+            raise GenError("assumed: no `impl %s` in %s" % (ty, pfile))
+    else:
+        cands = [0]
+    found = None
+    for c in cands:
+        m = re.compile(r"\bfn\s+%s\s*(<[^(]*>)?\(" % re.escape(name)).search(text, c)
+        if m:
+            found = m
+            break
+    if not found:
+        raise GenError("assumed: no fn %s in %s" % (path, pfile))
+    end = text.find("{ unimplemented!() }", found.start())
+    if end < 0:
+        raise GenError("assumed: stub %s in %s does not end with `{ unimplemented!() }`" % (path, pfile))
+    item = text[found.start():end]
+    msp = re.search(r"\n?\s*\b(requires|ensures)\b", item)
+    sig = item[:msp.start()] if msp else item
+    spec = item[msp.start():] if msp else ""
+    # parameters
+    po = sig.index("(", sig.index(name))
+    ct = rustlex.code_toks(rustlex.lex(sig[po:]))
+    close = rustlex.match_close(ct, 0)
+    ptext = sig[po + 1:po + ct[close].start]
+    params, depth, cur = [], 0, ""
+    for ch in ptext:
+        if ch in "([{<":
+            depth += 1
+        elif ch in ")]}>":
+            depth -= 1
+        if ch == "," and depth == 0:
+            params.append(cur.strip())
+            cur = ""
+        else:
+            cur += ch
+    if cur.strip():
+        params.append(cur.strip())
+    recv = None
+    argnames = []
+    for prm in params:
+        if re.match(r"^&?\s*(mut\s+)?self$", prm):
+            recv = "self"
+            continue
+        argnames.append(re.match(r"(?:mut\s+)?(\w+)\s*:", prm).group(1))
+    calls = opts.get("calls", name + "__proved")
+    wname = opts.get("as", name + "__as_assumed")
+    wsig = re.sub(r"\bfn\s+%s\b" % re.escape(name), "fn " + wname, sig, count=1)
+    wsig = re.sub(r"^\s*(pub(\([a-z]+\))?\s+)", "", wsig)
+    call = ("%s.%s(%s)" % (recv, calls, ", ".join(argnames))) if recv else ("%s%s(%s)" % ((ty + "::") if ty else "", calls, ", ".join(argnames)))
+    ex = Extracted("%s (assumed in prelude/%s)" % (path, pfile), "prelude/" + pfile, item, hashlib.sha256(item.encode()).hexdigest()[:16], "fn")
+    ex.sig = wsig
+    pieces = split_clauses(spec)
+    ch, ids = render_clauses(pieces, "%s/assumed" % path)
+    ex.clauses += ids
+    chunks = [Chunk(wsig.rstrip() + "\n", {"t": "sig", "fn": ex.name})] + ch + [Chunk("{ %s }\n" % call, {"t": "src", "fn": ex.name, "file": "prelude/" + pfile})]
+    meta.setdefault("implied_stubs", []).append("%s of prelude/%s" % (path, pfile))
+    return ex, chunks
+
+
 class Generated:
     def __init__(self):
         self.meta = None
@@ -958,6 +1042,10 @@ def generate(template_path, overlay=None):
                 emit(iparts, p[1], depth + 1)
             elif p[0] == "stub":
                 g.chunks.append(contract_stub(p[1], overlay, meta, p[2]))
+            elif p[0] == "assumed":
+                ex, chunks = assumed_wrapper(p[1], meta, p[2])
+                g.extracted.append(ex)
+                g.chunks += chunks
             else:
                 ex, chunks = expand_block(p[1], overlay, g.breaks, meta.get("backend", "verus"))
                 g.extracted.append(ex)
